@@ -148,6 +148,7 @@ def run_api(prop, tier, seed, profiles, builds, own_guards, crash_decisive=False
     for (rc, o), tr in zip(res, traces):
         if rc != 0 and not os.path.exists(tr[0]):
             raise vlib.InfraError("driver failed rc=%d: %s" % (rc, o[-2000:]))
+    vlib.check_complete(V, prop, res, traces, what=lambda t: "%s.%s" % (t[2], t[1]))
     log("  ran %d implementation executions in %.1fs" % (len(jobs), time.time() - t0))
 
     # ---- TV: group traces so one JVM validates several executions
